@@ -69,19 +69,26 @@ type Result struct {
 type ring struct {
 	mu  sync.Mutex
 	buf []byte
+	// sigquit: a goroutine dump caused by SIGQUIT began (its first line may
+	// have been pushed out of the ring by the dump itself)
+	sigquit bool
 }
 
 func (r *ring) Write(p []byte) (int, error) {
 	r.mu.Lock()
 	defer r.mu.Unlock()
+	if bytes.Contains(p, []byte("SIGQUIT: quit")) {
+		r.sigquit = true
+	}
 	r.buf = append(r.buf, p...)
 	if len(r.buf) > 256<<10 {
 		r.buf = r.buf[len(r.buf)-128<<10:]
 	}
 	return len(p), nil
 }
-func (r *ring) String() string { r.mu.Lock(); defer r.mu.Unlock(); return string(r.buf) }
-func (r *ring) Reset()         { r.mu.Lock(); r.buf = r.buf[:0]; r.mu.Unlock() }
+func (r *ring) String() string   { r.mu.Lock(); defer r.mu.Unlock(); return string(r.buf) }
+func (r *ring) Reset()           { r.mu.Lock(); r.buf = r.buf[:0]; r.sigquit = false; r.mu.Unlock() }
+func (r *ring) SawSIGQUIT() bool { r.mu.Lock(); defer r.mu.Unlock(); return r.sigquit }
 
 type worker struct {
 	id      int
@@ -269,7 +276,7 @@ func (w *worker) run(job *Job, timeout time.Duration) (res *Result, crashed bool
 				strings.Contains(stderrText, "fatal error: runtime: out of memory") ||
 				strings.Contains(stderrText, "fatal error: out of memory") ||
 				strings.Contains(stderrText, "runtime: cannot allocate memory") ||
-				strings.Contains(stderrText, "SIGQUIT: quit") || (exitErr != nil && strings.Contains(exitErr.Error(), "signal: terminated")) {
+				strings.Contains(stderrText, "SIGQUIT: quit") || w.stderr.SawSIGQUIT() || (exitErr != nil && strings.Contains(exitErr.Error(), "signal: terminated")) {
 				// (SIGQUIT/SIGTERM from outside: an operator, like the SIGQUIT that
 				// hit a worker of the seed-31 thorough sweep while another job was
 				// being debugged)
